@@ -7,6 +7,7 @@ import FP.Lemmas.Text
 import FP.Lemmas.Conv
 import FP.Lemmas.DecText
 import FP.Lemmas.ConvFine
+import FP.Model.LayoutPrec
 namespace FP.Props.C13
 open FP FP.Model FP.Model.Text FP.Model.Conv FP.Lemmas.Text FP.Lemmas.Conv FP.Lemmas.DecText FP.Gen.Layouts
 
@@ -259,5 +260,33 @@ theorem quantity_ucum_counterexample :
     toQuantityV (.str "5 mg/dL".toList) = .ok none := by
   refine ⟨?_, by decide⟩
   simp [toStringV, renderQuantity, renderDec, renderInt, natDigits]; decide
+
+/-! ### the parser tables of layouts.go -/
+
+/-- THE PARSER TABLES ARE THE SPECIFICATION'S: each type is read with one layout per precision, finest
+    first (so that a text is read at the precision it is written with), after its own literal marker.
+    (The round-trip theorems above hold for whatever tables pass `tableOK`; this pins the regenerated
+    tables themselves, which the model reads like the implementation does.) -/
+theorem layout_lists_as_specified :
+    parseDateLayouts = ["2006-01-02", "2006-01", "2006"] ∧ parseDateLayoutsPrefix = "@" ∧
+    parseDateTimeLayouts = ["2006-01-02T15:04:05.000Z07:00", "2006-01-02T15:04:05.000", "2006-01-02T15:04:05Z07:00",
+      "2006-01-02T15:04:05", "2006-01-02T15:04Z07:00", "2006-01-02T15:04", "2006-01-02T15Z07:00", "2006-01-02T15",
+      "2006-01-02T", "2006-01T", "2006T"] ∧ parseDateTimeLayoutsPrefix = "@" ∧
+    parseTimeLayouts = ["15:04:05.000", "15:04:05", "15:04", "15"] ∧ parseTimeLayoutsPrefix = "@T" := by decide +kernel
+
+/-- every layout a value can carry is one the parser tries: the precision tables and the parser tables
+    list the same layouts -/
+theorem every_layout_is_parsed :
+    dateMap.map (·.1) = parseDateLayouts ∧ dateTimeMap.map (·.1) = parseDateTimeLayouts ∧
+    timeMap.map (·.1) = parseTimeLayouts := by decide +kernel
+
+/-- WIDENING A DATE TO A DATETIME KEEPS ITS PRECISION: the DateTime layout of a Date layout is that layout
+    followed by `T` (the partial-DateTime form), it has the same implied precision, and every Date
+    layout has one -/
+theorem date_widening_keeps_precision :
+    dateToDateTime.all (fun p => p.2 == p.1 ++ "T" &&
+      impliedPrecision (goLayout p.1.toList) == impliedPrecision (goLayout p.2.toList)) = true ∧
+    dateToDateTime.map (·.1) = parseDateLayouts ∧
+    dateToDateTime.all (fun p => parseDateTimeLayouts.contains p.2) = true := by decide +kernel
 
 end FP.Props.C13
